@@ -24,6 +24,15 @@ for pol, sc in SCOPES.items():
         UNITS.append(Unit('backmp11.history_impl.%d.on_entry_visit' % pol, ['C08', 'C02', 'C13'], 'backmp11',
             Part(HI, [sc], 'void on_entry ( StateMachine & sm , const Event & event , Visitor && visitor )'), 'void hist_on_entry_visit(hist11_t* self, fsm_t* sm, event_t event)',
             'cascade_mp11.spec.h', xform=xfh, defines=D, also_replace=['hist_on_entry_ids'], replay=['hist']))
+def gnr(_): return [X.T('nr_regions')]
+UNITS.append(Unit('backmp11.history_impl.0.on_entry_visit', ['C08', 'C02', 'C13'], 'backmp11',
+    Part(HI, [SCOPES[0]], 'void on_entry ( StateMachine & sm , const Event & event , Visitor && visitor )'), 'void hist_on_entry_visit(hist11_t* self, fsm_t* sm, event_t event)',
+    'cascade_mp11.spec.h', defines=['POLICY=0'], also_replace=['hist_on_entry_ids'],
+    xform=back_xform(['mp_contains'], refparams=('sm',), members=['m_last_active_state_ids'], enums=ENUMS, drop=DROP2, foreach=True, size_of=gnr, throwers=['visitor_state_by_id'], exc_ret='',
+        rewrites=HRW + [dict(name='state-by-id', pat='auto & state = get < decltype ( state_id ) :: value > ( sm -> m_states ) ; visitor ( state ) ;', rep='visitor_state_by_id ( sm , g_init_ids16 [ state_id ] ) ;', min=0, max=1),
+                        dict(name='state-by-id2', pat='auto & state = std :: get < decltype ( state_id ) :: value > ( sm -> m_states ) ; visitor ( state ) ;', rep='visitor_state_by_id ( sm , g_init_ids16 [ state_id ] ) ;', min=0, max=1)]),
+    loops={0: '__CPROVER_assigns(state_id, g_entry_next, g_exc)\n__CPROVER_loop_invariant(0 <= state_id && state_id <= nr_regions && g_entry_next == state_id && !g_exc)\n__CPROVER_decreases(nr_regions - state_id)'},
+    replay=['hist']))
 MRW = [dict(name='CRTP-on_entry', pat='( ( front_end_t * ) ( self ) ) -> on_entry (', rep='front_on_entry ( self ,', min=0, max=1),
        dict(name='CRTP-on_exit', pat='( ( ( front_end_t * ) ( self ) ) ) -> on_exit (', rep='front_on_exit ( self ,', min=0, max=1),
        dict(name='SCOPE-pool-member', pat='event_pool_member :: value', rep='g_has_event_pool', min=0, max=1),
